@@ -278,6 +278,8 @@ struct VerifProbe {
   static int adj_solved(const Adj& a) { return a.solved; }
   static int adj_has_solver(const Adj& a) { return a.least_squares != nullptr; }
   static int adj_algorithm(const Adj& a) { return a.algorithm_; }
+  // LocalNetwork life-cycle flags: revision of points, revision of observations, project equations, adjustment
+  template <class N> static std::vector<int> net_flags(const N& n) { return std::vector<int>{n.tst_redbod_, n.tst_redmer_, n.tst_rov_opr_, n.tst_vyrovnani_}; }
 };
 }  // namespace GNU_gama
 
